@@ -274,4 +274,108 @@ def expandTemplate (template : List Char) (envs : List (List Char × List Char))
   let r := replaceAll ['{', '}'] dflt template
   envs.foldl (fun acc kv => if kv.1.isEmpty then acc else replaceAll ('{' :: kv.1 ++ ['}']) kv.2 acc) r
 
+
+/-! ## xtool/env: `$(pkg-config …)` and `$VAR` expansion in link directives
+
+`expandEnvWithCmd`: first every leftmost `\$\([^)]+\)` match is replaced by the output of the sub-command
+(only `pkg-config` / `llvm-config`; words split on blank, tab, newline; output trimmed, newlines → blanks; a
+failing or foreign command yields ""), then `os.Expand` substitutes `$NAME` / `${NAME}` from the environment, then
+`strings.TrimSpace`.  The sub-command and the environment are PARAMETERS (`cmdOut`, `env`).
+Over characters (valid UTF-8 templates; all delimiters are ASCII). -/
+
+def isWordSep (c : Char) : Bool := c = ' ' || c = '\t' || c = '\n'
+
+/-- `reFlag.FindAllString(s, -1)` with `[^ \t\n]+` -/
+def wordsAux (cur : List Char) : List Char → List (List Char)
+  | [] => if cur.isEmpty then [] else [cur.reverse]
+  | c :: cs =>
+    if isWordSep c then (if cur.isEmpty then wordsAux [] cs else cur.reverse :: wordsAux [] cs)
+    else wordsAux (c :: cur) cs
+
+def words (s : List Char) : List (List Char) := wordsAux [] s
+
+def trimChars (l : List Char) : List Char :=
+  ((l.dropWhile isSpace).reverse.dropWhile isSpace).reverse
+
+/-- what one `$(…)` match is replaced with; `none` = the Go code panics (`args[0]` on an empty word list) -/
+def subcmdValue (cmdOut : List (List Char) → Option (List Char)) (inner : List Char) : Option (List Char × Bool) :=
+  match words (trimChars inner) with
+  | [] => none
+  | cmd :: args =>
+    if cmd ≠ "pkg-config".toList && cmd ≠ "llvm-config".toList then some ([], false)
+    else match cmdOut (cmd :: args) with
+      | none => some ([], true)
+      | some out => some ((trimChars out).map (fun c => if c = '\n' then ' ' else c), true)
+
+/-- scan for the `)` closing a `$(`: returns (inner, rest after `)`) when inner is non-empty -/
+def splitParen : List Char → Option (List Char × List Char)
+  | [] => none
+  | c :: cs =>
+    if c = ')' then some ([], cs)
+    else match splitParen cs with
+      | some (inner, rest) => some (c :: inner, rest)
+      | none => none
+
+/-- the `ReplaceAllStringFunc` pass; result `(text, sawConfigCommand)`, `none` = panic -/
+def replaceSubcmds (cmdOut : List (List Char) → Option (List Char)) : Nat → List Char → Option (List Char × Bool)
+  | 0, s => some (s, false)
+  | _, [] => some ([], false)
+  | fuel+1, c :: cs =>
+    let plain := (replaceSubcmds cmdOut fuel cs).map (fun p => (c :: p.1, p.2))
+    if c = '$' then
+      match cs with
+      | '(' :: body =>
+        match splitParen body with
+        | some (inner, rest) =>
+          if inner.isEmpty then plain
+          else match subcmdValue cmdOut inner, replaceSubcmds cmdOut fuel rest with
+            | some (v, cfg), some (t, cfg') => some (v ++ t, cfg || cfg')
+            | _, _ => none
+        | none => plain
+      | _ => plain
+    else plain
+
+def isAlnumU (c : Char) : Bool :=
+  c = '_' || ('0' ≤ c && c ≤ '9') || ('a' ≤ c && c ≤ 'z') || ('A' ≤ c && c ≤ 'Z')
+
+def isShellSpecial (c : Char) : Bool :=
+  c = '*' || c = '#' || c = '$' || c = '@' || c = '!' || c = '?' || c = '-' || ('0' ≤ c && c ≤ '9')
+
+/-- `os.getShellName`: (name, bytes consumed) for the text after a `$` -/
+def shellName (s : List Char) : List Char × Nat :=
+  match s with
+  | [] => ([], 0)
+  | '{' :: rest =>
+    match rest with
+    | c :: '}' :: _ => if isShellSpecial c then ([c], 3) else
+        (match rest.idxOf? '}' with
+         | some i => if i = 0 then ([], 2) else (rest.take i, i + 2)
+         | none => ([], 1))
+    | _ =>
+      match rest.idxOf? '}' with
+      | some i => if i = 0 then ([], 2) else (rest.take i, i + 2)
+      | none => ([], 1)
+  | c :: _ =>
+    if isShellSpecial c then ([c], 1)
+    else let n := s.takeWhile isAlnumU; (n, n.length)
+
+/-- `os.Expand(s, env)` -/
+def osExpand (env : List Char → List Char) : Nat → List Char → List Char
+  | 0, s => s
+  | _, [] => []
+  | fuel+1, c :: cs =>
+    if c = '$' && !cs.isEmpty then
+      let p := shellName cs
+      if p.1.isEmpty && p.2 > 0 then osExpand env fuel (cs.drop p.2)          -- bad syntax: eaten
+      else if p.1.isEmpty then '$' :: osExpand env fuel cs                    -- lone `$`
+      else env p.1 ++ osExpand env fuel (cs.drop p.2)
+    else c :: osExpand env fuel cs
+
+/-- `expandEnvWithCmd` -/
+def expandEnvWithCmd (cmdOut : List (List Char) → Option (List Char)) (env : List Char → List Char)
+    (s : List Char) : Option (List Char × Bool) :=
+  match replaceSubcmds cmdOut (s.length + 1) s with
+  | none => none
+  | some (t, cfg) => some (trimChars (osExpand env (t.length + 1) t), cfg)
+
 end LlgoVerif.Shell
